@@ -1,7 +1,19 @@
 (* Pinned statements for C01: a changed statement or a new axiom fails the check. *)
-From SwimV Require Import Model.Uplinks Proofs.UplinksProofs Props.C01.
+From SwimV Require Import Model.Uplinks Proofs.UplinksProofs Model.ValuePipeline Proofs.ValuePipelineProofs Props.C01.
 Open Scope N_scope.
 Check (C01_value_event_is_latest) : (forall kf ops, Forall (well_kinded kf) ops -> forall h t b, In (h, Some t) (urun uplinks0 [] ops) -> kf (wt_lane t) = KValue -> (wt_action t = WEvent b \/ wt_action t = WValueSynced true b) -> last_value h (wt_lane t) None = Some b).
 Print Assumptions C01_value_event_is_latest.
 Check (C01_newer_value_replaces_pending) : (forall u l b, u_writer u = false -> aget l (u_values (fst (push_resp u l (RValue b)))) = Some {| uv_queued := true; uv_synced := uv_synced (aget_or uv0 l (u_values u)); uv_cur := Some b |}).
 Print Assumptions C01_newer_value_replaces_pending.
+Check (C01_remote_view_of_history) : (forall init ops r x, aget r (p_rems (pexec (pipe0 init) ops)) = Some x -> SS (events_of (r_sent x)) (p_hist (pexec (pipe0 init) ops))).
+Print Assumptions C01_remote_view_of_history.
+Check (C01_delivered_frames_are_a_view) : (forall init ops r, ss (events_of (frames_for r ops (prun (pipe0 init) ops))) (hist_of init ops) = true).
+Print Assumptions C01_delivered_frames_are_a_view.
+Check (C01_view_decision_is_exact) : (forall d h, ss d h = true <-> SS d h).
+Print Assumptions C01_view_decision_is_exact.
+Check (C01_quiescent_remote_is_current) : (forall init ops r x b, let p := pexec (pipe0 init) ops in aget r (p_rems p) = Some x -> vl_dirty (p_lane p) = false -> v_home (r_up x) = true -> r_owed x = Some b -> last_opt (events_of (r_sent x)) = Some (vl_content (p_lane p))).
+Print Assumptions C01_quiescent_remote_is_current.
+Check (C01_linked_remote_converges) : (forall init ops1 ops2 r, let p1 := pexec (pipe0 init) ops1 in let p2 := pexec (pipe0 init) (ops1 ++ ops2) in Owes r p1 -> Forall (fun o => o <> PUnlink r) ops2 -> vl_dirty (p_lane p2) = false -> forall x, aget r (p_rems p2) = Some x -> v_home (r_up x) = true -> last_opt (events_of (r_sent x)) = Some (vl_content (p_lane p2))).
+Print Assumptions C01_linked_remote_converges.
+Check (C01_owes_witness) : (Owes 1 (pexec (pipe0 [48]) [PAdd 1; PLink 1; PSet [53]])).
+Print Assumptions C01_owes_witness.
